@@ -29,7 +29,11 @@ KINDS = ("shift", "const", "rejectlen", "norun", "interp")
 def generate(rng, repo_root, opts=None):
     kind = rng.choice(KINDS)
     fs = world.draw_fluid_spec(rng, repo_root)
-    if kind in ("const", "rejectlen"):
+    if kind == "const":
+        # the constant schedule is given either as the simulate argument (single-phase) or as an array
+        # frac-face pressure at construction (dataclass field `float | NDArray`, every class)
+        cls = rng.choice(["SinglePhaseReservoir", "SinglePhaseReservoir", "IdealReservoir", "TwoPhaseReservoir"])
+    elif kind == "rejectlen":
         cls = rng.choice(["SinglePhaseReservoir"])
     else:
         cls = rng.choice(["IdealReservoir", "SinglePhaseReservoir", "SinglePhaseReservoir", "TwoPhaseReservoir"])
@@ -76,10 +80,20 @@ def generate(rng, repo_root, opts=None):
                         2 ** 35, 2 ** 37 + 2 ** 20, 2 ** 40])   # shifts up to ~1e6 time units
         sgn = -1 if rng.random() < 0.3 else 1
         scn["shift"] = sgn * k * Q
+        tt = g["t"]
+        u = rng.random()
+        if u < 0.12 and tt[0] != 0.0:
+            scn["shift"] = -tt[0]                       # the shifted grid starts exactly at 0
+        elif u < 0.2 and len(tt) > 2:
+            scn["shift"] = -tt[rng.randrange(1, len(tt) - 1)]   # some interior time becomes exactly 0
+        elif u < 0.26:
+            scn["shift"] = -(0.5 * (tt[0] + tt[-1])) // Q * Q   # times straddle 0
+        if scn["shift"] == 0.0:
+            scn["shift"] = Q
         if cls == "SinglePhaseReservoir" and rng.random() < 0.35:
             scn["sched"] = world.draw_schedule(rng, fs, obj["pf"], n)
     elif kind == "const":
-        pass
+        scn["const_form"] = "simulate_arg" if (cls == "SinglePhaseReservoir" and rng.random() < 0.6) else "ctor_array"
     elif kind == "rejectlen":
         scn["bad_len"] = rng.choice([0, max(0, n - 1), n + 1, 2 * n, 1, n + 7])
         if scn["bad_len"] == n:
@@ -291,7 +305,11 @@ def execute(ns, scn):
         if not _apply_pre(out, r2, scn, t):
             return out
         ok1, _, e1 = _sim(out, r1, t.copy())
-        ok2, _, e2 = _sim(out, r2, t.copy(), np.full(n, float(o["pf"])))
+        if scn.get("const_form", "simulate_arg") == "simulate_arg":
+            ok2, _, e2 = _sim(out, r2, t.copy(), np.full(n, float(o["pf"])))
+        else:
+            r2.pressure_fracface = np.full(n, float(o["pf"]))   # same as constructing with the array
+            ok2, _, e2 = _sim(out, r2, t.copy())
         out.log.append(("const", ok1, ok2, e1, e2))
         if ok1 != ok2:
             out.violate("2-const", "one-raises", {"scalar": e1, "constant_schedule": e2})
